@@ -82,14 +82,16 @@ fn ics20_code() -> Box<dyn Contract<Empty>> {
     Recorded::new("ics20", Box::new(c))
 }
 
-/// cw20-base with a failure switch (harness-only; toggled through `sudo`): while on, every execute fails
+/// cw20-base with fault switches (harness-only; toggled through `sudo`): `on` makes every Transfer fail;
+/// `sloppy` makes Send / SendFrom name the sender in upper case in the Receive message (a valid spelling of
+/// the same bech32 account, but not the normalised one: what a careless token contract could forward)
 pub struct FlakyToken {
     inner: Box<dyn Contract<Empty>>,
 }
 impl FlakyToken {
     pub fn boxed() -> Box<dyn Contract<Empty>> {
         Box::new(FlakyToken {
-            inner: Box::new(ContractWrapper::new(cw20_base::contract::execute, cw20_base::contract::instantiate, cw20_base::contract::query)),
+            inner: crate::contract_code!(cw20_base, has_reply_cw20_base, has_sudo_cw20_base, has_migrate_cw20_base),
         })
     }
 }
@@ -103,7 +105,21 @@ impl Contract<Empty> for FlakyToken {
                 }
             }
         }
-        self.inner.execute(d, e, i, m)
+        let sloppy = d.storage.get(b"verif_sloppy").is_some();
+        let mut r = self.inner.execute(d, e, i, m)?;
+        if sloppy {
+            for sm in r.messages.iter_mut() {
+                if let cosmwasm_std::CosmosMsg::Wasm(cosmwasm_std::WasmMsg::Execute { msg, .. }) = &mut sm.msg {
+                    if let Ok(mut v) = from_json::<Value>(&*msg) {
+                        if let Some(snd) = v.get("receive").and_then(|x| x.get("sender")).and_then(|x| x.as_str()).map(|x| x.to_uppercase()) {
+                            v["receive"]["sender"] = json!(snd);
+                            *msg = to_json_binary(&v)?;
+                        }
+                    }
+                }
+            }
+        }
+        Ok(r)
     }
     fn instantiate(&self, d: DepsMut, e: Env, i: MessageInfo, m: Vec<u8>) -> AnyResult<Response> {
         self.inner.instantiate(d, e, i, m)
@@ -113,10 +129,11 @@ impl Contract<Empty> for FlakyToken {
     }
     fn sudo(&self, d: DepsMut, _e: Env, m: Vec<u8>) -> AnyResult<Response> {
         let v: Value = from_json(&m)?;
-        if v["on"].as_bool().unwrap_or(false) {
-            d.storage.set(b"verif_fail", b"1");
-        } else {
-            d.storage.remove(b"verif_fail");
+        if let Some(on) = v.get("on").and_then(|x| x.as_bool()) {
+            if on { d.storage.set(b"verif_fail", b"1"); } else { d.storage.remove(b"verif_fail"); }
+        }
+        if let Some(on) = v.get("sloppy").and_then(|x| x.as_bool()) {
+            if on { d.storage.set(b"verif_sloppy", b"1"); } else { d.storage.remove(b"verif_sloppy"); }
         }
         Ok(Response::new())
     }
@@ -242,27 +259,29 @@ impl Run {
             let ics = run.ics.clone();
             // the old formats credited a channel only when a success acknowledgement arrived: packets still
             // in flight are escrowed but not in the books (migrate's v2 step adds them)
-            for d in ["nat", "NAT", "tok"] {
-                let dc = run.denom_chain(d);
-                let inflight: u128 = run.pkts.iter().filter(|p| !p.done).map(|p| {
-                    let x: cw20_ics20::ibc::Ics20Packet = from_json(&p.packet.data).unwrap();
-                    if x.denom == dc { x.amount.u128() } else { 0 }
-                }).sum();
-                if inflight == 0 {
-                    continue;
+            for ch in run.channels.clone() {
+                for d in ["nat", "NAT", "tok"] {
+                    let dc = run.denom_chain(d);
+                    let inflight: u128 = run.pkts.iter().filter(|p| !p.done && p.packet.src.channel_id == ch).map(|p| {
+                        let x: cw20_ics20::ibc::Ics20Packet = from_json(&p.packet.data).unwrap();
+                        if x.denom == dc { x.amount.u128() } else { 0 }
+                    }).sum();
+                    if inflight == 0 {
+                        continue;
+                    }
+                    let mut key = vec![0u8, 13];
+                    key.extend_from_slice(b"channel_state");
+                    key.extend_from_slice(&[0u8, ch.len() as u8]);
+                    key.extend_from_slice(ch.as_bytes());
+                    key.extend_from_slice(dc.as_bytes());
+                    let cur = run.w.app.dump_wasm_raw(&ics).into_iter().find(|(k, _)| *k == key).map(|(_, v)| v).expect("channel state of the pre-history");
+                    let v: Value = serde_json::from_slice(&cur).unwrap();
+                    let o: u128 = v["outstanding"].as_str().unwrap().parse().unwrap();
+                    let t: u128 = v["total_sent"].as_str().unwrap().parse().unwrap();
+                    // (saturating: a contract that books less than it escrows must show up in the trace, not crash the harness)
+                    let nv = json!({"outstanding": o.saturating_sub(inflight).to_string(), "total_sent": t.saturating_sub(inflight).to_string()});
+                    run.w.app.wasm_sudo(ics.clone(), &RawOp::RawSet { key: Binary::from(key), value: Binary::from(serde_json::to_vec(&nv).unwrap()) }).unwrap();
                 }
-                let mut key = vec![0u8, 13];
-                key.extend_from_slice(b"channel_state");
-                key.extend_from_slice(&[0u8, 3]);
-                key.extend_from_slice(b"ch1");
-                key.extend_from_slice(dc.as_bytes());
-                let cur = run.w.app.dump_wasm_raw(&ics).into_iter().find(|(k, _)| *k == key).map(|(_, v)| v).expect("channel state of the pre-history");
-                let v: Value = serde_json::from_slice(&cur).unwrap();
-                let o: u128 = v["outstanding"].as_str().unwrap().parse().unwrap();
-                let t: u128 = v["total_sent"].as_str().unwrap().parse().unwrap();
-                // (saturating: a contract that books less than it escrows must show up in the trace, not crash the harness)
-                let nv = json!({"outstanding": o.saturating_sub(inflight).to_string(), "total_sent": t.saturating_sub(inflight).to_string()});
-                run.w.app.wasm_sudo(ics.clone(), &RawOp::RawSet { key: Binary::from(key), value: Binary::from(serde_json::to_vec(&nv).unwrap()) }).unwrap();
             }
         }
         if legacy == "v2" {
@@ -286,6 +305,14 @@ impl Run {
                 if k.starts_with(&prefix) {
                     run.w.app.wasm_sudo(ics.clone(), &RawOp::RawRemove { key: Binary::from(k) }).unwrap();
                 }
+            }
+        }
+        // a contract stored by any release from 0.13.1 on has today's layout and bookkeeping: upgrading it changes nothing
+        if let Some(ver) = cfg.get("ver").and_then(|x| x.as_str()) {
+            if legacy == "none" && ver != "cur" {
+                let ics = run.ics.clone();
+                let v = json!({"contract":"crates.io:cw20-ics20","version":ver});
+                run.w.app.wasm_sudo(ics, &RawOp::RawSet { key: Binary::from(b"contract_info".to_vec()), value: Binary::from(serde_json::to_vec(&v).unwrap()) }).unwrap();
             }
         }
         let mut cfgv = cfg.clone();
@@ -346,7 +373,7 @@ impl Run {
         } else {
             let c: ConfigResponse = w.smart(&self.ics, &QueryMsg::Config {}).unwrap();
             let a: AllowedResponse = w.smart(&self.ics, &QueryMsg::Allowed { contract: self.tok.to_string() }).unwrap();
-            (gas_down(c.default_gas_limit), w.name_of(&c.gov_contract), a.is_allowed, gas_down(a.gas_limit))
+            (gas_down(c.default_gas_limit), if c.gov_contract.is_empty() { "none".to_string() } else { w.name_of(&c.gov_contract) }, a.is_allowed, gas_down(a.gas_limit))
         };
         let inflight: Vec<Value> = self.pkts.iter().enumerate().filter(|(_, p)| !p.done).map(|(i, _)| json!(i + 1)).collect();
         let lc: Result<cw20_ics20::msg::ListChannelsResponse, _> = w.smart(&self.ics, &QueryMsg::ListChannels {});
@@ -392,6 +419,20 @@ impl Run {
                     call(&mut self.w, |w| w.app.execute_contract(sender, ics.clone(), &ExecuteMsg::Transfer(tm), &funds))
                 } else {
                     let m = cw20::Cw20ExecuteMsg::Send { contract: ics.to_string(), amount: amt, msg: to_json_binary(&tm).unwrap() };
+                    let tok = self.tok.clone();
+                    call(&mut self.w, |w| w.app.execute_contract(sender, tok, &m, &[]))
+                }
+            }
+            "donate" => {
+                // money that reaches the contract outside any transfer: a plain bank send / cw20 Transfer
+                let d = s(&args, "denom");
+                let amt = self.sc.up(n(&args, "amt"));
+                let sender = self.w.addr(&by);
+                if d == "nat" || d == "NAT" {
+                    let m = cosmwasm_std::BankMsg::Send { to_address: ics.to_string(), amount: coins(amt, if d == "nat" { NAT } else { NATUP }) };
+                    call(&mut self.w, |w| w.app.execute(sender, m.into()))
+                } else {
+                    let m = cw20::Cw20ExecuteMsg::Transfer { recipient: ics.to_string(), amount: Uint128::new(amt) };
                     let tok = self.tok.clone();
                     call(&mut self.w, |w| w.app.execute_contract(sender, tok, &m, &[]))
                 }
@@ -492,7 +533,9 @@ impl Run {
             }
             "update_admin" => {
                 let sender = self.w.addr(&by);
-                let m = ExecuteMsg::UpdateAdmin { admin: self.w.addr(&s(&args, "new")).to_string() };
+                // "none": the empty string (there is no way to step down: it must be refused)
+                let new = s(&args, "new");
+                let m = ExecuteMsg::UpdateAdmin { admin: if new == "none" { String::new() } else { self.w.addr(&new).to_string() } };
                 call(&mut self.w, |w| w.app.execute_contract(sender, ics.clone(), &m, &[]))
             }
             "migrate" => {
@@ -589,6 +632,7 @@ pub fn rand_cfg(rng: &mut Rng) -> Value {
     // the supported upgrade path from the old formats requires a single open channel
     let channels = if (legacy != "none" && rng.chance(2, 3)) || rng.chance(1, 2) { json!(["ch1"]) } else { json!(["ch1", "ch2"]) };
     let swap = rng.chance(1, 3);
+    let two = channels.as_array().unwrap().len() == 2;
     let dg: i64 = if rng.chance(1, 2) { -1 } else { *rng.pick(&[100i64, 500]) };
     let allow = if rng.chance(1, 2) { json!([{"gas": *rng.pick(&[-1i64, 200, 800])}]) } else { json!([]) };
     let scale = if rng.chance(1, 4) { 40 } else { 0 };
@@ -596,7 +640,7 @@ pub fn rand_cfg(rng: &mut Rng) -> Value {
     if legacy != "none" {
         let k = rng.range(1, 4);
         for _ in 0..k {
-            pre.push(json!({"act":"transfer","by":rng.pick(&USERS),"args":{"denom":rng.pick(&["nat","tok","tok"]),"ch":"ch1","amt":rng.range(1,5),"to":"remote1"}}));
+            pre.push(json!({"act":"transfer","by":rng.pick(&USERS),"args":{"denom":rng.pick(&["nat","tok","tok"]),"ch":if two { *rng.pick(&["ch1","ch2"]) } else { "ch1" },"amt":rng.range(1,5),"to":"remote1"}}));
         }
         for i in 1..=k {
             if rng.chance(1, 3) {
@@ -606,7 +650,8 @@ pub fn rand_cfg(rng: &mut Rng) -> Value {
     }
     // a token can only have been sent (pre-history) if it was sendable then
     let (dg, allow) = if legacy == "v1" { (100, json!([{"gas":-1}])) } else if legacy == "v2" { (dg, json!([{"gas":200}])) } else { (dg, allow) };
-    json!({"channels":channels,"defaultGas":dg,"allow":allow,"legacy":legacy,"scale":scale,"pre":pre,"swap":swap})
+    let ver = *rng.pick(&["cur", "cur", "0.13.1", "0.13.2", "0.13.4", "0.14.0", "0.16.0", "1.0.0", "1.1.2"]);
+    json!({"channels":channels,"defaultGas":dg,"allow":allow,"legacy":legacy,"scale":scale,"pre":pre,"swap":swap,"ver":ver})
 }
 
 pub fn random_run(rng: &mut Rng, run_no: u64, len: usize, out: &mut Out) {
@@ -654,8 +699,9 @@ pub fn random_run(rng: &mut Rng, run_no: u64, len: usize, out: &mut Out) {
             }
             73..=80 => json!({"act":"tokfail","by":"env","args":{"on":rng.chance(1,2)}}),
             81..=88 => json!({"act":"allow","by":rng.pick(&["gov","gov","gov2","u1"]),"args":{"gas":*rng.pick(&[-1i64,100,200,800,1000,GAS_TOP])}}),
-            89..=92 => json!({"act":"update_admin","by":rng.pick(&["gov","gov2","u1"]),"args":{"new":rng.pick(&["gov","gov2"])}}),
+            89..=92 => json!({"act":"update_admin","by":rng.pick(&["gov","gov2","u1"]),"args":{"new":rng.pick(&["gov","gov2","gov2","none"])}}),
             93..=94 => json!({"act":"migrate","by":"creator","args":{"gas":*rng.pick(&[-1i64,300,50])}}),
+            96 => json!({"act":"donate","by":rng.pick(&USERS),"args":{"denom":d,"amt":rng.range(0,4)}}),
             95 => {
                 let a = json!({"ch":rng.pick(&["ch1","ch2"]),"version":rng.pick(&["ics20-1","ics20-1","ics20-2"]),"order":rng.pick(&["unordered","unordered","ordered"]),"cpv":rng.pick(&["none","ics20-1","ics20-9"])});
                 json!({"act": if rng.chance(1, 2) {"chan_open"} else {"chan_connect"}, "by":"relayer", "args": a})
